@@ -1147,6 +1147,10 @@ def rule_r9(ctx) -> List[R.Inst]:
         n0 = len(inits[0].value.elts)
         it = unparse(loops[0].iter).replace(" ", "")
         pairs = it.startswith("zip(") and "[:-1]" in it and "[1:]" in it      # n-1 consecutive pairs
+        # other iterables with n-1 items: the changes after the first (X[1:], islice(X, 1, None)), pairwise(X), index ranges
+        import re as _re
+        pairs = pairs or bool(_re.fullmatch(r"(\w+)\[1:\]|islice\((\w+),1,None\)|(itertools\.)?pairwise\((\w+)\)|zip\((\w+),\5\[1:\]\)|"
+                                            r"range\(1,len\((\w+)\)\)|range\(len\((\w+)\)-1\)|enumerate\((\w+)\[1:\](,1|,start=1)?\)", it))
         counts, other = _append_paths(loops[0].body, out)
         probs = []
         if not pairs:
